@@ -164,19 +164,15 @@ def fillGo (st : State) : Nat → Nat → State
     let (st, _) := localWrite st [.ins "t" s!"i{n}" [("a", .text [0x66])]] false
     fillGo st (n + 1) fuel
 
-/-- `process_complete_version` for one peer version inside the transaction of
-`process_multiple_changes`: a change is kept as "impactful" when `crsql_rows_impacted()` exceeds
-`last_rows_impacted`.  As the code stands, `last_rows_impacted` restarts at 0 for every changeset while
-`crsql_rows_impacted()` counts since the beginning of the TRANSACTION (`impacted` below): the first
-change of a changeset is therefore also kept when an EARLIER changeset of the same batch had an
-impact, whether or not it changed anything itself. -/
-def applyVersion (a : Db) (impacted : Nat) (chs : List Chg) : Db × Nat × List Chg :=
-  let r := chs.foldl (fun (acc : Db × Nat × Nat × List Chg) c =>
-    let (a, imp, last, kept) := acc
-    let a' := merge a c
-    let imp' := if a'.rows != a.rows then imp + 1 else imp
-    (a', imp', imp', if imp' > last then kept ++ [c] else kept)) (a, impacted, 0, [])
-  (r.1, r.2.1, r.2.2.2)
+/-- `process_complete_version` for one peer version: a change is kept as "impactful" when it moved
+`crsql_rows_impacted()`, whose baseline is read at the top of every changeset (repo commit 80d703f;
+before it the baseline restarted at 0 per changeset although the counter runs per transaction, and
+the first change of a later changeset of a batch was kept even when it lost the merge — the pinned
+regression case `corpus/C14/remote_batch_spurious_candidate.ops`). -/
+def applyVersion (a : Db) (chs : List Chg) : Db × List Chg :=
+  chs.foldl (fun (acc : Db × List Chg) c =>
+    let a' := merge acc.1 c
+    if a'.rows != acc.1.rows then (a', acc.2 ++ [c]) else (a', acc.2)) (a, [])
 
 def step (st : State) (toks : List String) : Option (State × String) :=
   match toks with
@@ -227,14 +223,14 @@ def step (st : State) (toks : List String) : Option (State × String) :=
     if vs.isEmpty then none else
     if vs.any (fun v => (st.blog.find? (·.1 = v)).isNone) then pure (st, "err no-such-version") else
     -- all versions are merged in one transaction, then notified in order
-    let (st, _, notes) := vs.foldl (fun (acc : State × Nat × List (List Chg)) v =>
-      let (st, impacted, notes) := acc
+    let (st, notes) := vs.foldl (fun (acc : State × List (List Chg)) v =>
+      let (st, notes) := acc
       if st.applied.contains v then acc else
       match st.blog.find? (·.1 = v) with
       | none => acc
       | some (_, chs) =>
-        let (a', impacted', kept) := applyVersion st.a impacted chs
-        ({ st with a := a', applied := v :: st.applied }, impacted', notes ++ [kept])) (st, 0, [])
+        let (a', kept) := applyVersion st.a chs
+        ({ st with a := a', applied := v :: st.applied }, notes ++ [kept])) (st, [])
     pure (notes.foldl (fun s kept => s.notifyChanges kept) st, "ok")
   | ["force"] => do
     let p ← st.params
